@@ -214,7 +214,7 @@ func (e *Enc) Encode() {
 	ep0 := &epoch{id: 0, memo: map[string]string{}}
 	e.entryHeap = &Heap{m: map[string]string{}, ep: ep0}
 	a0 := e.allocCounter(e.entryHeap)
-	_ = a0
+	e.assert(app(">=", a0, "0")) // allocation ids are positive (nil is 0, package-level objects are negative)
 	nd := 0
 	for _, b := range fn.Blocks {
 		for _, ins := range b.Instrs {
@@ -1124,15 +1124,25 @@ func (e *Enc) instr(ins ssa.Instruction) {
 		addr := e.val(x.Addr)
 		t := x.Addr.Type().Underlying().(*types.Pointer).Elem()
 		e.nilCheck(addr.T, x.Addr, x.Pos(), "store")
+		var tokUpd func()
 		if ia, isIA := x.Addr.(*ssa.IndexAddr); isIA && e.token {
 			if isByteSlice(ia.X.Type()) {
-				e.unsupp("single-byte store into a slice in token mode (%s): verify this function in array mode", e.exprText(x.Addr, x))
+				// b[i] = v: the content of THIS slice header is updated (other headers over the same array are not
+				// followed: the side condition of the byte-string view, DESIGN.md 3.2)
+				sv := e.val(ia.X)
+				iv := e.val(ia.Index)
+				old := e.tokBytes(h, sv.T)
+				nv := app("bcat", app("bsub", old, "0", iv.T), app("bcat", app("b1", e.val(x.Val).T), app("bsub", old, app("+", iv.T, "1"), app("slen", sv.T))))
+				tokUpd = func() { e.setBytes(e.cur, sv.T, nv) }
 			}
 		}
 		e.globalWriteCheck(x)
 		e.frameCheck(x, addr.T)
 		e.lockCheck(x.Addr, true, x.Pos())
 		e.store(h, addr.T, x.Addr, t, e.val(x.Val).T)
+		if tokUpd != nil {
+			tokUpd()
+		}
 	case *ssa.MapUpdate:
 		m := e.val(x.Map)
 		kv := e.val(x.Key)
